@@ -324,4 +324,44 @@ Proof.
   intros [_ Hq]. rewrite go_quorum_spec in Hq by lia. rewrite sol_quorum_spec, ral_quorum_spec.
   unfold sol_quorum_accepts, ral_quorum_accepts. split; apply Z.leb_le; exact Hq.
 Qed.
+(* ---- two nodes: what one guardian publishes, its peers accept ----
+   the signatures of a quorum-valid VAA are wire-representable when the set has at most 255 keys (the signature count is one byte) *)
+Lemma qvalid_sigs_wf v K : qvalid v K -> (length K <= 255)%nat ->
+  Forall wf_sig (sigs v) /\ (length (sigs v) <= 255)%nat.
+Proof.
+  intros [(Hinc & Hso & _) _] HK. split.
+  - pose proof (increasing_lt _ _ Hinc) as Hlt. rewrite Forall_forall in *. intros s Hs.
+    destruct (Hso s Hs) as [Hb (a & Ha & _)]. split.
+    + unfold rng. split; [assert (-1 < s_idx s) by (apply Hlt; apply in_map; exact Hs); lia|].
+      change (256 ^ Z.of_nat 1) with 256. unfold addr, bytes in *. lia.
+    + apply (recover_checked_len recover _ _ _ Ha).
+  - assert (F' : Forall (fun x => x < Z.of_nat (length K)) (map s_idx (sigs v))).
+    { apply Forall_map. eapply Forall_impl; [|exact Hso]. intros s [Hs _]. exact Hs. }
+    pose proof (increasing_length _ _ _ Hinc F') as L. rewrite map_length in L. unfold addr, bytes in *. lia.
+Qed.
+
+Theorem peer_stores_published_vaa v g stB : vaa_paycap = None ->
+  qvalid v (keys g) -> (length (keys g) <= 255)%nat -> wf (set_sigs v []) ->
+  cur stB = Some g -> dlookup (id_of v) (db stB) = None ->
+  handle_inbound stB (marshal v) =
+  ({| cur := cur stB; agg := agg stB; db := (id_of v, marshal v) :: db stB; loopq := loopq stB; clock := clock stB |},
+   [Store (id_of v) (marshal v)]).
+Proof.
+  intros Hcap Hq HK Hwf Hcur Hdb.
+  destruct (qvalid_sigs_wf v (keys g) Hq HK) as [Hsw Hsn].
+  assert (W : wf v).
+  { destruct Hwf as [w1 w2 w3 w4 w5 w6 w7 w8 w9 w10 w11 w12 w13]. cbn [set_sigs version gsidx sigs ts tns nonce echain tchain eaddr seq cl payload] in *.
+    constructor; assumption. }
+  assert (Hu : unmarshal (marshal v) = Ok v) by (unfold unmarshal; rewrite Hcap; apply unmarshal_marshal_nocap; exact W).
+  unfold Processor.handle_inbound. rewrite Hu, Hcur.
+  destruct Hq as [Hacc Hqn].
+  pose proof (go_quorum_pos (Z.of_nat (length (keys g))) ltac:(lia)) as Hpos.
+  destruct (Nat.eqb_spec (length (keys g)) 0) as [E0|_].
+  { exfalso. unfold addr, bytes in *. rewrite E0 in *. destruct Hacc as (Hinc & Hso & _). destruct (sigs v) as [|s ss]; [cbn [length] in Hqn; lia|].
+    inversion Hso as [|? ? [Hb _] _]; subst. pose proof (increasing_lt _ _ Hinc) as Hlt. inversion Hlt; subst. unfold addr, bytes in *. rewrite E0 in Hb. cbn [length] in Hb. lia. }
+  destruct (Nat.eqb_spec (length (sigs v)) 0) as [E0|_]; [unfold addr, bytes in *; rewrite E0 in Hqn; change (Z.of_nat 0) with 0 in Hqn; lia|].
+  destruct (inbound_below_quorum_spec (Z.of_nat (length (sigs v))) (go_quorum (Z.of_nat (length (keys g))))) as [Hlt|_]; [unfold addr, bytes in *; lia|].
+  assert (Hv : verify_sigs rec keccak v (keys g) = true) by (apply verify_sigs_iff; exact Hacc).
+  rewrite Hv. cbn [negb]. rewrite Hdb. reflexivity.
+Qed.
 End C01.
